@@ -22,9 +22,11 @@ def gen_cfg(nq, gam, sym, maxpush, maxt, maxf, inv=True):
 def families(tier):
     # (NQ, Gamma, Sigma, MaxPush, MaxT, MaxF, sample)
     if tier == "quick":
-        return [(2, ("Z", "X"), ("a",), 2, 2, 1, 6), (1, ("Z", "X"), ("a", "b"), 3, 2, 1, 2), (2, ("Z",), ("a",), 2, 3, 2, 8)]
+        return [(2, ("Z", "X"), ("a",), 2, 2, 1, 6), (1, ("Z", "X"), ("a", "b"), 3, 2, 1, 2), (2, ("Z",), ("a",), 2, 3, 2, 8),
+                (2, ("Z",), ("a",), 3, 3, 1, 8)]
     return [(2, ("Z", "X"), ("a",), 2, 2, 2, 1), (1, ("Z", "X"), ("a", "b"), 3, 2, 1, 1), (2, ("Z",), ("a",), 2, 3, 2, 1),
-            (2, ("Z", "X"), ("a",), 2, 3, 1, 16), (2, ("Z", "X"), ("a", "b"), 1, 3, 1, 16)]
+            (2, ("Z", "X"), ("a",), 2, 3, 1, 16), (2, ("Z", "X"), ("a", "b"), 1, 3, 1, 16), (2, ("Z",), ("a",), 3, 3, 1, 1),
+            (2, ("Z", "X"), ("a",), 3, 2, 1, 2)]
 
 
 L = lambda tier: 3 if tier == "quick" else 4
@@ -86,8 +88,9 @@ def generate(tier, seed, work, stats):
     for hist in random_pdas(600 if tier == "quick" else 10000, seed + 13):
         cases.append(dict(kind="pda", hist=hist, spool="q", kpool="ZX", family="random"))
     gfam = [(2, 2, 3, 2, 8)] if tier == "quick" else [(2, 2, 3, 2, 1), (3, 1, 3, 2, 4)]
-    for c in c08.grammar_cases(tier, seed, work, stats, gfam, [("upper", "ab")]):
-        cases.append(dict(kind="cfg", prods=c["prods"], vpool="upper", tpool="ab", family=c["family"]))
+    for i, c in enumerate(c08.grammar_cases(tier, seed, work, stats, gfam, [("upper", "ab")])):
+        # every third grammar with variables whose values equal terminal values (to_pda keeps them apart with a prefix)
+        cases.append(dict(kind="cfg", prods=c["prods"], vpool="clash" if i % 3 == 2 else "upper", tpool="ab", family=c["family"]))
     for c in cases:
         c["L"] = L(tier)
     return cases
